@@ -12,11 +12,18 @@ From BB Require Import BN Brute SpaceFacts TrapFacts PercolateFacts AttractorFac
   Strict PetriNet Control Meta FilterFacts PetriNetFacts TrappistFacts DiagramStruct DiagramSem1 DiagramCache
   DiagramDepth DiagramComplete Termination ControlFacts MetaFacts Candidates StrictFacts MinExpandFacts CandidatesFacts SymbolicTest SymbolicTestFacts Signed ReductionFacts ControlFacts2 Main Blocks BlocksFacts ObsFacts OwnerFacts CandidatesTerm
   PartialOwner BlockMath BlockComplete ASeeds ASeedsFacts LogChecks SkipRule SkipRuleFacts Names NamesFacts Perm PermFacts SCC SCCFacts SCCStruct ControlFacts3 SCCTerm FilterSym Main2 StrategyFacts ControlFacts4 SkipRuleFacts2 SCCComplete SCCAttr BlockComplete2 ControlFacts5 Iso SkipSem ControlFacts6.
-From BB Require Import PyLib PyLibSd PyLibPerc PySrcPerc PySrcPercFacts.
+From BB Require Import PyLib PyLibSd PyLibPerc PySrcPerc PySrcPercFacts PyLibDrivers PySrcDrivers PySrcDriversFacts.
 
 (* translator tie: the function GENERATED from the current text of space_utils.percolate_space_strict (PySrcPerc.v; embedding PyLibPerc.v) computes the model's percolate_strict_b *)
 Theorem C11_source_percolate_space_strict : forall (N : net) (X : list (option bool)), length X = nvars N -> py_percolate_space_strict N X = Some (percolate_strict_b N X).
 Proof. exact py_percolate_space_strict_spec. Qed.
+
+(* ... drivers.find_single_node_LDOIs the model's single_ldois, and find_single_drivers (with or without a caller-supplied table) single_drivers *)
+Theorem C11_source_find_single_node_LDOIs : forall N : net, py_find_single_node_LDOIs N = Some (single_ldois N).
+Proof. exact py_find_single_node_LDOIs_spec. Qed.
+
+Theorem C11_source_find_single_drivers : forall (N : net) (target : space), py_find_single_drivers N target None = Some (single_drivers N target) /\ py_find_single_drivers N target (Some (single_ldois N)) = Some (single_drivers N target).
+Proof. exact py_find_single_drivers_spec. Qed.
 
 (* ... and percolation_conflicts(strict_percolation=False) the model's conflicts_b (as a duplicate-free set) *)
 Theorem C11_source_percolation_conflicts : forall (N : net) (X : list (option bool)), length X = nvars N -> exists l : list nat, py_percolation_conflicts N X false = Some l /\ NoDup l /\ (forall v : nat, In v l <-> In v (conflicts_b N X)).
@@ -85,6 +92,8 @@ Example C11_example_conflict_kept : percolate_b ex_net [Some true; Some false; N
 Proof. vm_compute. reflexivity. Qed.
 
 Print Assumptions C11_source_percolate_space_strict.
+Print Assumptions C11_source_find_single_node_LDOIs.
+Print Assumptions C11_source_find_single_drivers.
 Print Assumptions C11_source_percolation_conflicts.
 Print Assumptions C11_is_percolation.
 Print Assumptions C11_unique.
